@@ -473,6 +473,9 @@ type ContractSet struct {
 	Ghosts    map[string]string        // pkgpath.name -> type expression
 	FuncTypes map[string]*FuncContract // contracts of named function types; key pkgpath.TypeName
 	Funcs  map[string]*FuncContract // key: pkgpath + "." + name
+	// Standalone: a second, verified contract of a function whose call sites keep using an assumed
+	// (thinner) contract from Funcs: the function is proved against it on its own, callers do not see it
+	Standalone map[string]*FuncContract
 	Pures  map[string]*PureFunc     // key: pkgpath + "." + name
 	Lemmas []*Lemma
 	Ifaces map[string]*FuncContract // interface method contracts; key pkgpath.Type.Method
@@ -480,7 +483,7 @@ type ContractSet struct {
 }
 
 func NewContractSet() *ContractSet {
-	return &ContractSet{Effects: map[string]string{}, Ghosts: map[string]string{}, FuncTypes: map[string]*FuncContract{}, Funcs: map[string]*FuncContract{}, Pures: map[string]*PureFunc{}, Ifaces: map[string]*FuncContract{}}
+	return &ContractSet{Effects: map[string]string{}, Ghosts: map[string]string{}, FuncTypes: map[string]*FuncContract{}, Funcs: map[string]*FuncContract{}, Standalone: map[string]*FuncContract{}, Pures: map[string]*PureFunc{}, Ifaces: map[string]*FuncContract{}}
 }
 
 var (
@@ -615,6 +618,11 @@ func (cs *ContractSet) LoadFile(path, pkgPath string, trusted bool) error {
 				cs.Ifaces[scope+"|"+key] = fc
 			} else if r.kw == "functype" {
 				cs.FuncTypes[key] = fc
+			} else if fc.Opts["standalone"] != "" && r.kw == "func" {
+				if old, ok := cs.Standalone[key]; ok {
+					return fmt.Errorf("%s:%d: duplicate standalone contract for %s (first at %s:%d)", path, r.line, key, old.File, old.Line)
+				}
+				cs.Standalone[key] = fc
 			} else {
 				if old, ok := cs.Funcs[key]; ok {
 					return fmt.Errorf("%s:%d: duplicate contract for %s (first at %s:%d)", path, r.line, key, old.File, old.Line)
@@ -629,7 +637,10 @@ func (cs *ContractSet) LoadFile(path, pkgPath string, trusted bool) error {
 			}
 			idx, _ := strconv.Atoi(m[1])
 			key := pkgPath + "." + m[2]
-			fc, ok := cs.Funcs[key]
+			fc, ok := cs.Standalone[key]
+			if !ok {
+				fc, ok = cs.Funcs[key]
+			}
 			if !ok {
 				// loops of an inlined (uncontracted) function: create a shell contract marked "inline-only"
 				fc = &FuncContract{Pkg: pkgPath, Name: m[2], Opts: map[string]string{"inline-only": "true"}, Loops: map[int]*LoopContract{}, File: path, Line: r.line}
@@ -644,7 +655,10 @@ func (cs *ContractSet) LoadFile(path, pkgPath string, trusted bool) error {
 				return fmt.Errorf("%s:%d: bad assert %q (assert in <func> at \"text\": expr)", path, r.line, r.text)
 			}
 			key := pkgPath + "." + m[1]
-			fc, ok := cs.Funcs[key]
+			fc, ok := cs.Standalone[key]
+			if !ok {
+				fc, ok = cs.Funcs[key]
+			}
 			if !ok {
 				fc = &FuncContract{Pkg: pkgPath, Name: m[1], Opts: map[string]string{"inline-only": "true"}, Loops: map[int]*LoopContract{}, File: path, Line: r.line}
 				cs.Funcs[key] = fc
